@@ -1,6 +1,6 @@
 import Verif.Lemmas.Await
 import Verif.Lemmas.Shared
-import Verif.Gen.Timing
+import Verif.Lemmas.SharedLoss
 
 /-! # C18 — concurrent requests on one connection: no cross-talk and no lost responses
 
@@ -67,6 +67,70 @@ def timedOutAt (c : CState Nat) : Option Nat :=
   match c.st with
   | .done .timedOut t => some t
   | _ => none
+
+/-- Each arriving message is handed to AT MOST ONE caller (arrival ticks distinct): over all
+callers, the consumed arrivals never repeat and are arrivals of the history.  Together with
+`c18_no_cross_talk` this is the whole mechanism of the loss refuted below: a response consumed by a
+caller it is not addressed to is discarded there and can reach nobody else. -/
+theorem c18_each_message_consumed_once (R : Int → Bool) (P fuel : Nat) (callers : List (Caller × Nat))
+    (hist : List (Nat × In α)) (hd : (hist.map (·.1)).Nodup) :
+    (allGot (sim R P fuel (initState P callers) hist)).Nodup
+    ∧ ∀ a ∈ allGot (sim R P fuel (initState P callers) hist), a ∈ hist.map (·.1) := by
+  have h0 : allGot (initState (α := α) P callers) = [] := by
+    induction callers with
+    | nil => rfl
+    | cons c cs ih => simpa [allGot, initState] using ih
+  obtain ⟨h1, h2⟩ := sim_consumed_once R P fuel (initState P callers) hist (by rw [h0]; simpa using hd)
+  refine ⟨h1, fun a ha => ?_⟩
+  rcases h2 a ha with h | h
+  · rw [h0] at h; cases h
+  · exact h
+
+/-- in the witness below every message was consumed exactly once — by the WRONG caller -/
+example : allGot (sim (fun _ => true) 512 40 (initState 512 wCallers) wHist) = [17, 18] := by decide
+
+/-- The ONLY way a response is lost.  For every number of callers, every history in arrival order
+and every schedule of the simulation: if a caller ends with `TimeoutError` although a response
+bearing its id arrived before its deadline, then that very arrival was consumed — and discarded — by
+ANOTHER caller waiting on the same connection.  (With one caller there is no other: that is
+`c18_no_loss_partial`.)  This is the exact content of the open finding
+`lost-response/discarded-by-other-waiter`; any other kind of loss is outside what the code, as
+modelled, can do and is reported under a different key. -/
+theorem c18_loss_only_by_other_waiter (R : Int → Bool) (P fuel : Nat) (callers : List (Caller × Nat))
+    (hist : List (Nat × In α)) (hs : Sorted hist) (k : Nat) (c : CState α)
+    (hk : (sim R P fuel (initState P callers) hist)[k]? = some c) (t : Nat)
+    (hto : c.st = .done .timedOut t) (a : Nat) (p : α)
+    (hr : (a, In.resp c.caller.id p) ∈ hist) (ha : a < c.caller.D) :
+    ∃ (k' : Nat) (c' : CState α), k' ≠ k
+      ∧ (sim R P fuel (initState P callers) hist)[k']? = some c' ∧ a ∈ c'.got := by
+  have h0 : LossInv hist [] hist (initState (α := α) P callers) := by
+    refine ⟨by simp, by intro k c _ a p hp; simp at hp, ?_⟩
+    intro k c hk t ht
+    have hm : c ∈ initState (α := α) P callers := List.mem_of_getElem? hk
+    simp only [initState, List.mem_map] at hm
+    obtain ⟨x, _, rfl⟩ := hm
+    simp at ht
+  obtain ⟨proc, ev, inv⟩ := sim_lossInv R P hist fuel _ [] hist hs h0
+  obtain ⟨hD, hlate⟩ := inv.late k c hk t hto
+  have hmem : (a, In.resp c.caller.id p) ∈ proc ++ ev := by rw [← inv.split]; exact hr
+  rcases List.mem_append.mp hmem with hp | he
+  · rcases inv.lost k c hk a p hp with h | ⟨o, t', h1, h2⟩
+    · exact h
+    · rw [hto] at h1
+      simp at h1
+      obtain ⟨rfl, rfl⟩ := h1
+      have := h2 rfl
+      omega
+  · have := hlate _ he
+    simp at this
+    omega
+
+/-- the witness below is an instance: caller 0 timed out, its response (tick 18) is in caller 1's
+consumed list, and vice versa -/
+example : ∃ (k' : Nat) (c' : CState Nat), k' ≠ 0
+    ∧ (sim (fun _ => true) 512 40 (initState 512 wCallers) wHist)[k']? = some c' ∧ 18 ∈ c'.got :=
+  c18_loss_only_by_other_waiter (fun _ => true) 512 40 wCallers wHist (by simp [Sorted, wHist]) 0
+    ⟨⟨.int 0, 2304⟩, .done .timedOut 2304, [17]⟩ (by rfl) 2304 rfl 18 10 (by simp [wHist]) (by decide)
 
 /-- (b) refuted: both responses were sent in time (ticks 17 and 18, deadlines 2304 and 2305),
 each was consumed and discarded by the other waiter, both callers time out. -/
